@@ -3,6 +3,7 @@ package main
 // Forward symbolic execution of go/ssa (NaiveForm) with path splitting; emits obligations.
 
 import (
+	"os"
 	"fmt"
 	"go/constant"
 	"go/token"
@@ -450,6 +451,9 @@ func (x *Exec) runPath(st *State) {
 		}
 		ins := f.Block.Instrs[f.PC]
 		x.step(st, ins)
+		if st.Dead && st.Frame != nil && os.Getenv("GOVC_DEBUG") != "" {
+			fmt.Fprintf(os.Stderr, "path died at %s in %s (%s)\n", ins, FuncName(f.Fn), x.P.Fset.Position(ins.Pos()))
+		}
 	}
 }
 
@@ -610,9 +614,11 @@ func (x *Exec) havocLoop(st *State, la *loopAnalysis, head *ssa.BasicBlock, spec
 		if mod.allMem {
 			st.havocAllMem()
 		} else {
+			mm := mod.mems
+			ev := st.logHavoc(true, func(k string) bool { return mm[k] }, nil)
 			for k := range mod.mems {
 				if m, ok := st.Mems[k]; ok {
-					st.Mems[k] = Fresh("Mem$"+k, m.Sort)
+					st.Mems[k] = ev.version(k, m.Sort)
 				}
 			}
 		}
@@ -628,9 +634,7 @@ func (x *Exec) havocLoop(st *State, la *loopAnalysis, head *ssa.BasicBlock, spec
 			}
 			if i := strings.Index(g.LHS, "("); i > 0 {
 				key := "gmap:" + strings.TrimSpace(g.LHS[:i])
-				if h, ok := st.Heap[key]; ok {
-					st.Heap[key] = Fresh("H$"+key, h.Sort)
-				}
+				st.havocHeapWhere(func(k string) bool { return k == key })
 				continue
 			}
 			if v, ok := st.Ghost[g.LHS]; ok {
